@@ -7,6 +7,7 @@ import (
 
 	_ "verif/props/eckpt"
 	_ "verif/props/edet"
+	_ "verif/props/edm"
 	_ "verif/props/emem"
 	_ "verif/props/enet"
 	_ "verif/props/enoc"
